@@ -141,6 +141,18 @@ def one_generation(acc, prop, m, seed, forced, fr, script=None, parsed=None, tol
     findings, facts = genoracle.evaluate(parsed, gres, want_closed=not tolerate_raise)
     acc.case(nontrivial_key(prop, m, facts, text, seed if script is None else tuple(script)),
              labels=["arche:" + a for a in m.arche.split("+")] + [f"forced:{forced}", f"n_res:{min(facts.get('n_res', 0), 12)}"])
+    if prop == "C05":
+        # the public SMILES view of the generated molecule must denote that molecule (elements, charges, isotopes, bonds)
+        try:
+            from rdkit import Chem
+            smi = gres.molgen.smiles
+            a = Chem.MolToSmiles(Chem.RemoveHs(gres.molgen.mol))
+            q = Chem.MolFromSmiles(smi)
+            b = None if q is None else Chem.MolToSmiles(Chem.RemoveHs(q))
+            if b is not None and a != b:
+                findings = list(findings) + [("C05", "smiles_denotes_molecule", f".smiles is {smi!r} (canonical {b}), .mol is {a}", {})]
+        except Exception:  # noqa: BLE001 - sanitisation problems are the business of the 'sanitize' oracle
+            pass
     for p, oracle, msg, sig in findings:
         if p == prop:
             acc.violation(oracle, f"{msg}\n molecule: {text!r}\n generated: {safe_smiles(gres.molgen)}", case, sig, size=len(text))
